@@ -90,9 +90,9 @@ class DenseTimeOnlineUpdateVisitor(AbstractOnlineUpdateVisitor):
     def visitConstant(self, node, online_operator_dict, var_object_dict):
         # A constant is one segment from 0 to infinity.  The operators keep the
         # part they have not consumed between updates, so it is emitted only once.
-        if node in self.constants_emitted:
+        if node.name in self.constants_emitted:
             return []
-        self.constants_emitted.add(node)
+        self.constants_emitted.add(node.name)
         sample_return = [[0, node.val], [float("inf"), node.val]]
         return sample_return
 
